@@ -14,6 +14,10 @@ BITS = 16
 MASK = (1 << BITS) - 1
 
 
+class _FactorTimeout(Exception):
+    pass
+
+
 class EngineError(Exception):
     """the engine cannot express something (unsupported atom etc.) -> UNDECIDED/ERROR, never a violation"""
 
@@ -351,7 +355,9 @@ class Ring:
     # ---- factorisation through sympy ----
     def factor(self, p: Poly):
         """returns (const, [(Poly irreducible normalised, exp)]) with p = const * prod f^e.
-        Each factor is normalised to have leading coefficient +1 (lex lead)."""
+        Each factor is normalised to have leading coefficient +1 (lex lead).
+        Large polynomials are factored under an interval timer; when abandoned the polynomial is kept as a single
+        factor (sound: factorisation is only an optimisation for cancellation / perfect-square detection)."""
         k = p.key()
         r = self._factor_cache.get(k)
         if r is not None:
@@ -362,34 +368,63 @@ class Ring:
             (m, c), = p.t.items()
             r = (c, [(self.vpoly(i), e) for i, e in self._unpack(m)])
         else:
-            import sympy
-
-            vs = sorted(p.vars())
-            syms = {i: sympy.Symbol(f"v{i}") for i in vs}
-            expr = 0
-            terms = []
-            for m, c in p.t.items():
-                t = sympy.Rational(c.numerator, c.denominator)
-                for i, e in self._unpack(m):
-                    t = t * syms[i] ** e
-                terms.append(t)
-            expr = sympy.Add(*terms)
-            c0, facs = sympy.factor_list(expr, *[syms[i] for i in vs])
-            const = Fraction(int(c0.p), int(c0.q)) if c0.is_Rational else None
-            if const is None:
-                raise EngineError(f"non-rational content {c0}")
-            out = []
-            inv = {v: k_ for k_, v in syms.items()}
-            for f, e in facs:
-                fp = self._from_sympy_poly(sympy.Poly(f, *[syms[i] for i in vs]), vs)
-                lm, lc = fp.lead()
-                if lc != 1:
-                    fp = fp.scale(1 / lc)
-                    const *= lc ** int(e)
-                out.append((fp, int(e)))
-            r = (const, out)
+            r = None
+            if len(p.t) <= 400:
+                if len(p.t) < 25 or getattr(self, "_in_guard", False):
+                    r = self._sympy_factor(p)
+                else:
+                    r = self._guarded_factor(p)
+            if r is None:
+                lm, lc = p.lead()
+                r = (lc, [(p.scale(1 / lc), 1)])
         self._factor_cache[k] = r
         return r
+
+    def _guarded_factor(self, p):
+        import signal
+
+        def handler(signum, frame):
+            raise _FactorTimeout()
+
+        self._in_guard = True
+        old = signal.signal(signal.SIGALRM, handler)
+        signal.setitimer(signal.ITIMER_REAL, self.FACTOR_SECONDS)
+        try:
+            return self._sympy_factor(p)
+        except _FactorTimeout:
+            return None
+        finally:
+            signal.setitimer(signal.ITIMER_REAL, 0)
+            signal.signal(signal.SIGALRM, old)
+            self._in_guard = False
+
+    def _sympy_factor(self, p):
+        import sympy
+
+        vs = sorted(p.vars())
+        syms = {i: sympy.Symbol(f"v{i}") for i in vs}
+        terms = []
+        for m, c in p.t.items():
+            t = sympy.Rational(c.numerator, c.denominator)
+            for i, e in self._unpack(m):
+                t = t * syms[i] ** e
+            terms.append(t)
+        expr = sympy.Add(*terms)
+        c0, facs = sympy.factor_list(expr, *[syms[i] for i in vs])
+        const = Fraction(int(c0.p), int(c0.q)) if c0.is_Rational else None
+        if const is None:
+            raise EngineError(f"non-rational content {c0}")
+        out = []
+        for f, e in facs:
+            fp = self._from_sympy_poly(sympy.Poly(f, *[syms[i] for i in vs]), vs)
+            lm, lc = fp.lead()
+            if lc != 1:
+                fp = fp.scale(1 / lc)
+                const *= lc ** int(e)
+            out.append((fp, int(e)))
+        return (const, out)
+
+    FACTOR_SECONDS = 4
 
     def _from_sympy_poly(self, sp, vs):
         t = {}
